@@ -230,7 +230,7 @@ def family(t, tier):
     """Yield (tag, spec, build options) for every builder state of block kind `t`.
     The union over tags is the shape space described in DESIGN.md section 3."""
     thorough = tier == "thorough"
-    F_single = 10 if thorough else 6
+    F_single = 11 if thorough else 8
     F_multi = 4 if thorough else 3
     opts0 = {}
     if t in RLE_TYPES:
